@@ -195,19 +195,28 @@ func ruleMarshalCoverage(c *core.Ctx) {
 	if arrayDims == nil {
 		c.Undecided(rule, "ArrayDimensions.MarshalJSON", 0, "not found")
 	} else {
-		okName, okLen := false, false
-		ast.Inspect(arrayDims.Body, func(n ast.Node) bool {
-			if is, ok := n.(*ast.IfStmt); ok {
-				ct := types.ExprString(is.Cond)
-				if strings.Contains(ct, ".Name != nil") {
-					okName = true
+		// the full form (the dimensions themselves, not their count) must be what is marshalled as soon as
+		// one dimension has a name, and as soon as one has a length: the rows of the method are evaluated
+		// under those two assignments
+		ap := c.DeclPkg(arrayDims)
+		x := &gee.Extractor{Info: ap.TypesInfo, Fset: c.Fset, AllReturns: true}
+		rows := x.Extract("MarshalJSON", arrayDims)
+		fullUnder := func(asg map[string]string) bool {
+			for _, r := range rows {
+				if r.Kind != "return" || !strings.HasPrefix(r.Tmpl, "VAL:") || len(r.Loop) == 0 {
+					continue
 				}
-				if strings.Contains(ct, ".Length != nil") {
-					okLen = true
+				if strings.Contains(r.Tmpl, "len(") {
+					continue
+				}
+				if sat, unknown := guardSat(r.Guards, asg); sat && len(unknown) == 0 {
+					return true
 				}
 			}
-			return true
-		})
+			return false
+		}
+		okName := fullUnder(map[string]string{"ArrayDimension.Name != nil": "true", "ArrayDimension.Length != nil": "false", "ArrayDimension.Comment == \"\"": "true"})
+		okLen := fullUnder(map[string]string{"ArrayDimension.Name != nil": "false", "ArrayDimension.Length != nil": "true", "ArrayDimension.Comment == \"\"": "true"})
 		c.Check(okName && okLen, rule, "ArrayDimensions.MarshalJSON/compact form", arrayDims.Pos(), "the rank-only form is used only when no dimension has a name or a length",
 			"the rank-only form can be chosen although a dimension has a name or a fixed length: `float[2,3]`, `float[3,2]` and `float[,]` get the same schema while their encodings differ")
 	}
@@ -242,16 +251,18 @@ func ruleSchemaCanonical(c *core.Ctx) {
 	})
 	c.Check(sorted && usesQualified, rule, "GetProtocolSchema/types sorted by qualified name", d.Pos(), "schema.Types is sorted by qualified name", "the type list keeps visiting order: reordering definitions or files changes the schema")
 	cleared := false
-	ast.Inspect(d.Body, func(n ast.Node) bool {
-		if as, ok := n.(*ast.AssignStmt); ok && len(as.Lhs) == 1 {
-			if se, ok := as.Lhs[0].(*ast.SelectorExpr); ok && se.Sel.Name == "ComputedFields" {
-				if tv, ok := info.Types[as.Rhs[0]]; ok && tv.IsNil() {
-					cleared = true
+	for _, fd := range declsCalledInPkg(c, d, 2) { // GetProtocolSchema itself or a helper it calls
+		ast.Inspect(fd.Body, func(n ast.Node) bool {
+			if as, ok := n.(*ast.AssignStmt); ok && len(as.Lhs) == 1 {
+				if se, ok := as.Lhs[0].(*ast.SelectorExpr); ok && se.Sel.Name == "ComputedFields" {
+					if tv, ok := info.Types[as.Rhs[0]]; ok && tv.IsNil() {
+						cleared = true
+					}
 				}
 			}
-		}
-		return true
-	})
+			return true
+		})
+	}
 	c.Check(cleared, rule, "GetProtocolSchema/computed fields cleared", d.Pos(), "ComputedFields = nil on the record clone", "computed fields stay in the schema: editing a computed field (not wire relevant) changes the schema")
 	// removeComments covers every struct with a marshalled Comment field
 	_, rd, _ := c.Func("pkg/dsl", "removeComments")
@@ -305,4 +316,29 @@ func ruleSchemaCanonical(c *core.Ctx) {
 			}
 		}
 	}
+}
+
+// declsCalledInPkg: d and the functions of its package it calls (statically), to the given depth.
+func declsCalledInPkg(c *core.Ctx, d *ast.FuncDecl, depth int) []*ast.FuncDecl {
+	p := c.DeclPkg(d)
+	seen := map[*ast.FuncDecl]bool{}
+	var out []*ast.FuncDecl
+	var visit func(x *ast.FuncDecl, k int)
+	visit = func(x *ast.FuncDecl, k int) {
+		if x == nil || seen[x] {
+			return
+		}
+		seen[x] = true
+		out = append(out, x)
+		if k == 0 {
+			return
+		}
+		for _, cs := range c.Calls(x) {
+			if cs.Callee != nil && p != nil && cs.Callee.Pkg() == p.Types {
+				visit(c.Decl(cs.Callee), k-1)
+			}
+		}
+	}
+	visit(d, depth)
+	return out
 }
